@@ -11,6 +11,8 @@ type ssaFn = ssa.Function
 
 func debugDump(w *World, what string, args []string) {
 	switch what {
+	case "panics":
+		debugPanics(w, args)
 	case "loops":
 		debugLoops(w, args)
 	case "contracts":
